@@ -142,6 +142,15 @@ func (state *State) SetPendingSync() {
 	state.pendingSync = true
 }
 
+// ClearPendingSync is called when the peer tells us about blocks we don't have yet, so it must
+// confirm again that there are no more headers before we can be in sync.
+func (state *State) ClearPendingSync() {
+	state.lock.Lock()
+	defer state.lock.Unlock()
+
+	state.pendingSync = false
+}
+
 func (state *State) IsReady() bool {
 	state.lock.Lock()
 	defer state.lock.Unlock()
